@@ -479,6 +479,32 @@ func roundTrip(id int, filename, src string, opts syntax.FileOptions, feats []st
 			add("roundtrip:"+key, fmt.Sprintf("%s differs: original %v, after round trip %v", key, clipAny(fmt.Sprint(a)), clipAny(fmt.Sprint(b))))
 		}
 	}
+	// A program is a value: using it (executing it, asking for positions in every
+	// function) must not change what Write emits.  Lazily built caches inside the
+	// compiled program are the state that could leak into the encoding.
+	for side, p := range map[string]*starlark.Program{"original": p1, "decoded": p2} {
+		nf := len(d1.Functions) + 1
+		func() {
+			defer func() { recover() }()
+			for fi := 0; fi < nf; fi++ {
+				starlark.VerifFuncPosition(p, fi, 0)
+			}
+		}()
+		b3, err := writeProg(p)
+		if err != nil {
+			add("roundtrip:write-after-use-error:"+side, err.Error())
+		} else if !bytes.Equal(b1, b3) {
+			i := 0
+			for i < len(b1) && i < len(b3) && b1[i] == b3[i] {
+				i++
+			}
+			add("roundtrip:bytes-after-use:"+side, fmt.Sprintf("Write of the %s program after it was executed and its positions were queried differs from Write before use: lengths %d vs %d, first difference at offset %d", side, len(b1), len(b3), i))
+		} else if p3, err := starlark.CompiledProgram(bytes.NewReader(b3)); err == nil {
+			if d := firstDiff("Program", "roundtrip:dump-after-use:"+side, reflect.ValueOf(d1), reflect.ValueOf(starlark.VerifDumpProgram(p3))); d != nil {
+				add(d.Key, "program written after use decodes to a different program: "+d.What)
+			}
+		}
+	}
 	cmp("exec:prints", o1.Prints, o2.Prints)
 	cmp("exec:globals", o1.Globals, o2.Globals)
 	cmp("exec:error", o1.Err, o2.Err)
